@@ -1492,6 +1492,12 @@ func (ip *Interp) step(act *activation, st *State, instr ssa.Instruction) bool {
 					act.env[t] = NewConst(8, uint64(a.S[c]), false)
 					return true
 				}
+				// a character of a constant string selected by a term: a value determined by
+				// the string and that term
+				if idx.Hi < uint64(len(a.S)) {
+					act.env[t] = ip.strIndex(a.S, idx)
+					return true
+				}
 			}
 		}
 		act.env[t] = ip.topOf(t.Type(), "index")
@@ -1537,6 +1543,10 @@ func (ip *Interp) step(act *activation, st *State, instr ssa.Instruction) bool {
 			if idx, ok := asInt(ip.get(act, st, t.Index)); ok {
 				if c, ok := idx.IsConst(); ok && int(c) < len(s.S) {
 					act.env[t] = NewConst(8, uint64(s.S[c]), false)
+					return true
+				}
+				if idx.Hi < uint64(len(s.S)) {
+					act.env[t] = ip.strIndex(s.S, idx)
 					return true
 				}
 			}
@@ -1806,6 +1816,21 @@ func (ip *Interp) compare(op string, x, y Val, xs, ys ssa.Value) Val {
 		}
 	}
 	return &Bool{K: TriTop}
+}
+
+// strIndex is s[idx] for a constant string and an in-range symbolic index.
+func (ip *Interp) strIndex(s string, idx *Int) *Int {
+	hi := uint64(0)
+	for i := idx.Lo; i <= idx.Hi && i < uint64(len(s)); i++ {
+		if uint64(s[i]) > hi {
+			hi = uint64(s[i])
+		}
+	}
+	a := ip.In.Derived(fmt.Sprintf("strindex(%q,%s)", s, idx.Lin.Key()), 8, hi, idx.Lin)
+	if a.Op == "" {
+		a.Op, a.Args = "strindex:"+s, []*Lin{idx.Lin}
+	}
+	return NewSym(8, a, false)
 }
 
 func isNilConst(v ssa.Value) bool {
